@@ -1057,7 +1057,10 @@ class Machine(object):
         return "mandatory:" + src.kind, [sid], thunk
 
     def _evolve(self, step, insert):
-        sid = self.pick(step.get("src", 0), lambda n: n.kind == "complex")
+        # fields are added to a class itself; what adding a field to a customized *variant*
+        # means for its siblings is not documented (the code says _variants is only for the
+        # root class), so that is outside the domain.
+        sid = self.pick(step.get("src", 0), lambda n: n.kind == "complex" and n.variant_of is None)
         targets = self.variants_of(sid)
         tid = self.pick(step.get("t", 0),
                         lambda n: not (set(targets) & self.reach(n.id)), step.get("pref"))
